@@ -66,6 +66,16 @@ def cases(tier, seed, args):
         out.append(dict(t='fp', kind='cwmm', K=[2, 3, 3][i % 3], D=[4, 5, 6][i % 3], F=1 + i % 2, iterations=[1, 2, 5, 20][i % 4],
                         blur=float([0.0, 0.2, 0.4][i % 3]), noise=0.0, seed=int(rng.integers(1 << 30)), gains=bool(i % 2), gainmode='mixed', E=4,
                         proto_style=['canonical', 'sparse'][(i // 2) % 2]))
+    # strongly unbalanced classes (D + 2 against 200 .. 300 observations) with a mildly blurred start
+    for i in range(10 if q else 60):
+        # (the Gaussian mixture only: with a directional model or stream one blurred M-step on a 40 : 1 imbalance legitimately moves the small
+        # class's mode towards the big class - 5 % of 200 frames outweigh 95 % of 5 frames)
+        kind = 'gmm'
+        D = int(rng.integers(3, 6))
+        out.append(dict(t='fp', kind=kind, K=2 + (i // 5) % 2, D=D, F=1, iterations=[1, 2, 5, 3][i % 4], blur=float([0.05, 0.1, 0.08][i % 3]),
+                        noise=float(10.0 ** rng.uniform(-3, -2)), seed=int(rng.integers(1 << 30)), gains=False, gainmode='mixed', E=D,
+                        sizes=([D + 2, 200] if (i // 5) % 2 == 0 else [D + 2, 300, D + 3]),
+                        opts=dict(covariance_type=['full', 'spherical', 'spherical', 'diagonal'][(i // 5) % 4]) if kind in ('gmm', 'gcacgmm') else {}))
     # process-level state is order dependent: the cases with a small-dimension prehistory run first in the driver process
     out.sort(key=lambda c: 0 if c.get('prehistory') else 1)
     return out
@@ -133,6 +143,10 @@ def run_case(case):
     tkw = case.get('trainer_kw') or {}
     if tkw:
         fp += f';trainer={tkw}'
+    if case.get('opts'):
+        fp += f';opts={case["opts"]}'
+    if case.get('sizes') and max(case['sizes']) >= 10 * min(case['sizes']):
+        fp += ';unbalanced'
     if case.get('prehistory'):
         # process history: ANOTHER trainer of the same class has been used with a smaller feature dimension before
         r0 = np.random.default_rng(case['seed'] + 1)
@@ -146,7 +160,7 @@ def run_case(case):
         init0 = 0.6 * onehot + 0.4 / K
         call(ml.fit, kind, data, init0, 3, {}, trainer)
         fp += ';reused'
-    model, exc = call(ml.fit, kind, data, init, case['iterations'], {}, trainer)
+    model, exc = call(ml.fit, kind, data, init, case['iterations'], dict(case.get('opts') or {}), trainer)
     if model is None:
         return [dict(kind='fixedpoint', exc=exc, fp=fp, key=key)]
     post, e2 = call(ml.predict, kind, model, data)
